@@ -79,7 +79,8 @@ SCRATCH = None
 
 
 def lib_vid(c):
-    return c.get("vid", c["cid"])
+    from harness import lib as _lib
+    return _lib.vid(c)
 
 
 def exec_check(c):
